@@ -5524,13 +5524,22 @@ class CodegenCtx:
         else:
             raise NotImplementedError("unsupported intexpr type", intexpr)
 
+    def _literal_bytes(self, value: Union[bytes, str]) -> bytes:
+        """
+        Get the bytes a string literal denotes. String literals hold one character per byte (see _convert_string), so
+        they are encoded as latin-1; this keeps the emitted bytes and their count equal to what matches compare against.
+        """
+
+        if type(value) is str:
+            try:
+                return value.encode('latin-1')
+            except UnicodeEncodeError:
+                raise IllegalDFAStateError("String literal contains characters outside the byte range (use \\x escapes)")
+        return value
+
     def _escape_string(self, value: Union[bytes, str]):
         result = ""
-        if type(value) is str:
-            bytes_value = value.encode('utf-8')
-        else:
-            bytes_value = value
-        for i in bytes_value:
+        for i in self._literal_bytes(value):
             if chr(i) in ["\\", '"']:
                 result += "\\" + chr(i)
             elif not (32 <= i < 127):
@@ -5548,10 +5557,7 @@ class CodegenCtx:
         Must ensure value is short enough first.
         """
 
-        if isinstance(value, str):
-            escaped_length = len(value.encode('utf-8'))
-        else:
-            escaped_length = len(value)
+        escaped_length = len(self._literal_bytes(value))
 
         return f"memcpy(state->c.{into.name}, \"{self._escape_string(value)}\", {escaped_length if not into.str_null else escaped_length+1});"
 
